@@ -516,6 +516,11 @@ class JunctionCompartment(Compartment):
         outflow_fractions = [link.parameter.vals[ti] for link in self.outlinks]
         total_outflow = sum(outflow_fractions)
 
+        if total_outflow == 0 and not np.any(net_inflow):
+            # Nobody enters the junction and all outflow proportions are zero, so nobody leaves it either.
+            # Without this, the flows below would be 0*0/0 = NaN and the NaN would empty the downstream compartments
+            total_outflow = 1.0
+
         # Finally, assign the inflow to the outflow proportionately accounting for the total outflow downscaling
         for frac, link in zip(outflow_fractions, self.outlinks):
             if self.duration_group:
